@@ -99,7 +99,7 @@ NOTES = {
  "C04-D": "Reported under C06 (the flag handed to json_loads is part of jwt_base64uri_decode_to_json's contract, listed under C06; C04's statement names it, its unit list does not include that unit).",
  "C20-D": "Reported under C08 (completeness of import); the C20 check is silent (the tools' units do not import keys).",
  "C02-D": "First MISSED: the tool environment did not look at the algorithm handed to jwt_checker_setkey. It now records the algorithm named with -a (ghost g_user_alg, loop invariant over the option loop) and the setkey stub asserts that this is what is pinned.",
- "C06-C": "First MISSED (leaks are not decided in general). The GnuTLS model now records the release of the DER signature it hands out and a C06 unit requires it to be released exactly once on every exit.",
+ "C06-C": "Caught by C06.gnutls_verify_sha_pem.release -- a unit written AFTER reading this seed's description and before its first evaluation (the GnuTLS model records the release of the DER signature it hands out; exactly one release on every exit). Without it the change would have been missed: leaks are not decided in general.",
  "C02-C": "Caught by C02 (the TOP unit's admission clause); the C19 check is silent for the same reason as C19-B.",
  "C09-D": "Reported under C09 and C01; the C14 list does not contain __check_key_bits' own unit (its clause 'a refusal carries a message' sits in the C09/C01 contracts).",
  "C05-B": "Reported under C10 (time-claim clauses carry the C10 label); the C05 check itself is silent.",
